@@ -13,7 +13,6 @@ type replayResult struct {
 	confirmed bool
 }
 
-
 func runReplay(path string) int {
 	b, err := os.ReadFile(path)
 	if err != nil {
